@@ -72,7 +72,7 @@ def wmol_of_graph(g):
 
 # ------------------------------------------------------------------ instrumented pipeline
 
-def run_pipeline(rsmi, explicit_hydrogen=False):
+def run_pipeline(rsmi, explicit_hydrogen=False, write_explicit=False):
     """rsmi_to_graph, rsmi_to_its, its_to_rsmi on the real code; records what its_to_rsmi hands to implicit_hydrogen
     (the preserve set) and to GraphToMol (the two graphs).  -> dict"""
     import synkit.IO.chem_converter as cc
@@ -95,7 +95,7 @@ def run_pipeline(rsmi, explicit_hydrogen=False):
 
     cc.GraphToMol, hm.implicit_hydrogen = Rec, ih
     try:
-        back = cc.its_to_rsmi(I)
+        back = cc.its_to_rsmi(I, explicit_hydrogen=True) if write_explicit else cc.its_to_rsmi(I)
     finally:
         cc.GraphToMol, hm.implicit_hydrogen = orig_cls, orig_ih
     return dict(G=G, H=H, I=I, rec=rec, pres=pres, back=back)
@@ -150,12 +150,25 @@ def obs_pipeline_eh(rsmi):
             [w[0]] if w[0] is not None else [], [w[1]] if w[1] is not None else []]
 
 
-def coq_pipeline(rsmi, explicit_hydrogen=False):
+def obs_pipeline_opts(rsmi):
+    """rsmi_to_its(core=True) and its_to_rsmi(explicit_hydrogen=True)"""
+    import synkit.IO.chem_converter as cc
+    r = run_pipeline(rsmi, write_explicit=True)
+    if r is None:
+        return []
+    if len(r["rec"]) != 2 or r["pres"]:
+        return ["unexpected-call-pattern", len(r["rec"]), len(r["pres"])]
+    w = [wmol_of_graph(g) for g in r["rec"]]
+    return [E.obs_its(cc.rsmi_to_its(rsmi, core=True)), E.obs_mgraph(r["rec"][0]), E.obs_mgraph(r["rec"][1]),
+            [w[0]] if w[0] is not None else [], [w[1]] if w[1] is not None else []]
+
+
+def coq_pipeline(rsmi, explicit_hydrogen=False, opts=False):
     a, b = rsmi.split(">>")
     ma, mb = sanitized_mol(a), sanitized_mol(b)
     if ma is None or mb is None:
         return None
-    return "%s %s %s" % ("run_str_eh" if explicit_hydrogen else "run_str", coq_rmol(read_rmol(ma)), coq_rmol(read_rmol(mb)))
+    return "%s %s %s" % ("run_str_opts" if opts else ("run_str_eh" if explicit_hydrogen else "run_str"), coq_rmol(read_rmol(ma)), coq_rmol(read_rmol(mb)))
 
 
 # ------------------------------------------------------------------ MolToGraph.transform alone
